@@ -49,6 +49,7 @@ const (
 	OpRelExchangeNone // A=slot, D=target: Relations.Exchange without components
 	OpNewBatchZero    // A=set, B=count (0 or -1)
 	OpNewBatchRel     // A=set, B=relation comp given to the builder, C=target slot: Builder.WithRelation(B).NewBatch(1, target)
+	OpReadDead        // A=slot (dead), B=comp, C=accessor (0 Has, 1 Get): read accessors documented to panic for removed entities
 	numOps
 )
 
@@ -57,7 +58,7 @@ var opNames = [...]string{"none", "NewEntity", "NewEntityWith", "Builder.New", "
 	"Batch.RemoveEntities", "Batch.Add", "Batch.Remove", "Batch.Exchange", "Batch.SetRelation", "Relations.ExchangeBatch",
 	"Batch.AddQ", "Batch.RemoveQ", "Batch.ExchangeQ", "Batch.SetRelationQ", "Relations.ExchangeBatchQ",
 	"Cache.Register", "Cache.Unregister", "Reset", "Relations.Get", "Add2", "Remove2", "Add0", "Register(cached)", "NewEntity(dup)",
-	"Relations.Exchange(none)", "Builder.NewBatch(count<1)", "Builder.WithRelation(x).NewBatch"}
+	"Relations.Exchange(none)", "Builder.NewBatch(count<1)", "Builder.WithRelation(x).NewBatch", "Has/Get(removed entity)"}
 
 // Class is the expected outcome class of an operation.
 type Class uint8
@@ -516,6 +517,11 @@ func (m *Model) Step(op wx.Op) Expect {
 			return set(ClsMustPanic, "component-missing")
 		}
 		e.Val[op.B] = m.nextVal(int(op.A), int(op.B))
+		return set(ClsOK, "")
+	case OpReadDead:
+		if !m.Slots[op.A].Alive {
+			return set(ClsMustPanic, "dead-entity")
+		}
 		return set(ClsOK, "")
 	case OpRelGet:
 		e := &m.Slots[op.A]
